@@ -472,6 +472,26 @@ impl<'tcx> Ex<'tcx> {
                     // type of discriminant (bool / integer / enum discr)
                     let dty = discr.ty(body, tcx);
                     let _ = write!(t, ",\"discr_ty\":{}", jstr(&self.ty_s(dty)));
+                    // switch on `discriminant(place)` computed in this block: list the enum's variants
+                    if let Some(dp) = discr.place() {
+                        for st in data.statements.iter().rev() {
+                            if let StatementKind::Assign(bx) = &st.kind {
+                                let (pl, rv) = &**bx;
+                                if *pl == dp {
+                                    if let Rvalue::Discriminant(ep) = rv {
+                                        let ety = ep.ty(body, tcx).ty;
+                                        if let ty::Adt(adt, _) = ety.kind() {
+                                            if adt.is_enum() {
+                                                let vals: Vec<String> = adt.discriminants(tcx).map(|(vi, d)| format!("[{},{}]", d.val, jstr(&adt.variant(vi).name.to_string()))).collect();
+                                                let _ = write!(t, ",\"enum\":{},\"enum_variants\":{}", jstr(&self.path(adt.did())), jlist(&vals));
+                                            }
+                                        }
+                                    }
+                                    break;
+                                }
+                            }
+                        }
+                    }
                 }
                 TerminatorKind::Return => t.push_str(",\"t\":\"return\""),
                 TerminatorKind::Unreachable => t.push_str(",\"t\":\"unreachable\""),
@@ -592,7 +612,8 @@ impl<'tcx> Ex<'tcx> {
             let _ = write!(o, ",\"vis\":{}", jstr(&vis_s(tcx, tcx.visibility(did))));
             let _ = write!(o, ",\"line\":{}", jstr(&self.span_s(tcx.def_span(did))));
             let mut vs = Vec::new();
-            for v in adt.variants().iter() {
+            let discrs: Vec<u128> = if adt.is_enum() { adt.discriminants(tcx).map(|(_, d)| d.val).collect() } else { Vec::new() };
+            for (vn, v) in adt.variants().iter().enumerate() {
                 let mut fs = Vec::new();
                 for f in v.fields.iter() {
                     let fty = tcx.type_of(f.did).instantiate_identity().skip_norm_wip();
@@ -603,7 +624,8 @@ impl<'tcx> Ex<'tcx> {
                         jstr(&self.ty_s(fty))
                     ));
                 }
-                vs.push(format!("{{\"name\":{},\"fields\":{}}}", jstr(&v.name.to_string()), jlist(&fs)));
+                let dv = discrs.get(vn).map(|d| format!("{}", d)).unwrap_or_else(|| "null".to_string());
+                vs.push(format!("{{\"name\":{},\"discr\":{},\"fields\":{}}}", jstr(&v.name.to_string()), dv, jlist(&fs)));
             }
             let _ = write!(o, ",\"variants\":{}", jlist(&vs));
             // traits implemented (local impls only), by trait path
